@@ -198,7 +198,7 @@ def behaviour(rec, b, table, rng, tier):
         objs, props = labels('any' if k == 2 else 'latin1', n, m, rng)
         rec.new(b, objs, props, table)
         for fmt, as_int in (('csv', False), ('csv-int', True)):
-            for dialect in ('excel', 'excel-tab', 'unix'):
+            for dialect in ('excel', 'unix', 'excel-tab'):      # the last explicit one differs most from the default
                 def rd(t, dialect=dialect, as_int=as_int):
                     return TR.read_csv(t, dialect, as_int)
                 text = rec.dump(fmt, rd, tag=dialect, dialect=dialect, bools_as_int=as_int)
